@@ -721,6 +721,11 @@ pub fn c16(cx: &Ctx) -> Report {
                 let int_ty = d.inner.int_ty();
                 let doc = DocVal::Newtype(s.type_name(), Box::new(docval_of(witness, int_ty)));
                 for fmt in ALL_FMT {
+                    // JSON has no encoding for non-finite floats (serde_json writes `null`): such a document does not
+                    // carry the witness, the inner type's own error is all a deserializer can report
+                    if fmt == Fmt::Json && matches!(witness, Val::F32(_) | Val::F64(_)) && !witness.is_finite_float() {
+                        continue;
+                    }
                     if let Ok(bytes) = encode(fmt, &doc) {
                         if let DeOut::Err(e) = s.de(fmt, Pos::Top, &bytes) {
                             r.evaluations += 1;
